@@ -175,6 +175,8 @@ def coq_make(targets, timeout=1800):
     with Lock('coq'):
         import gen_tables
         gen_tables.main()              # regenerate coq/Gen/*.v from the current /repo/src (write-if-changed)
+        import cxx2coq
+        cxx2coq.main()                 # per-PGN setter/parser IR + generated obligations (C05/C15)
         coq_makefile()
         rc, out = sh(['timeout', str(timeout), 'make', '-k', '-j%d' % NPROC] + targets, cwd=COQ, timeout=timeout + 60)
     return rc == 0, out
